@@ -103,3 +103,17 @@ impl WithChild for Imp {
     type Ret = Kid;
     fn make(&self, a: u64) -> Result<Kid, Code> { self.tick(); if self.ok { Ok(Kid { id: self.val ^ a }) } else { Err(self.err()) } }
 }
+/// the marker's argument spelled with a path, and a method declared `extern "C"`
+use std::io;
+#[cglue_trait]
+#[int_result(io::Result)]
+pub trait PathArg {
+    fn pa_io(&self, a: u64) -> io::Result<u64>;
+    extern "C" fn pa_ext(&self, a: u64) -> Result<u64, Code>;
+    extern "C" fn pa_ext_unit(&self) -> Result<(), Code>;
+}
+impl PathArg for Imp {
+    fn pa_io(&self, a: u64) -> io::Result<u64> { self.tick(); if self.ok { Ok(self.val ^ a) } else { Err(io::Error::from_raw_os_error(self.code)) } }
+    extern "C" fn pa_ext(&self, a: u64) -> Result<u64, Code> { self.tick(); if self.ok { Ok(self.val ^ a) } else { Err(self.err()) } }
+    extern "C" fn pa_ext_unit(&self) -> Result<(), Code> { self.tick(); if self.ok { Ok(()) } else { Err(self.err()) } }
+}
